@@ -2,7 +2,9 @@
 
 Oracle: the Lean Kleene iterates `ZN G n X` (n-th iterate of the grammar's polynomial system from
 zero = sum of the weights of the derivation trees of height ≤ n), exact when stationary, deep IEEE
-truncation otherwise; the Expectation leg through the proved `expectation_lifting` model."""
+truncation otherwise; the Expectation leg through the proved `expectation_lifting` model.
+Structural: the blocks of `cfg.dependency_graph()` (the order in which `agenda` solves) against the proved model `tarjan` of
+`scc_decomposition` (Model/Tarjan.lean, `tarjan_correct`), run on the set iteration orders observed in the worker, under every hash seed."""
 import hashlib
 import json
 import struct
@@ -47,6 +49,13 @@ def impl(case):
         out["treesum"] = common.enc_w(common.mk_cfg(case["cfg"], R).treesum(), R)
     except Exception as e:  # noqa
         out["treesum"] = {"exc": type(e).__name__, "msg": str(e)[:200]}
+    # the dependency graph whose blocks drive `agenda`: the iteration orders Tarjan is about to see, then the real blocks
+    try:
+        D = common.mk_cfg(case["cfg"], R).dependency_graph()
+        obs = common.tarjan_observe(D)   # BEFORE `D.blocks`
+        out["deps"] = {"tarjan": obs, "blocks": common.tarjan_blocks(D)}
+    except Exception as e:  # noqa
+        out["deps"] = {"exc": type(e).__name__, "msg": str(e)[:200]}
     if R == "Float":
         try:
             out["expected_length"] = common.frac_str(common.mk_cfg(case["cfg"], R).expected_length)
@@ -107,11 +116,35 @@ def run(ctx):
     zn = zn_eval(ctx, [(c["cfg"], c["R"]) for c in cases])
     fl = [c for c in cases if c["R"] == "Float"]
     ex = dict(zip([c["id"] for c in fl], zn_eval(ctx, [(c["cfg"], "Expectation") for c in fl], op="lift_expectation")))
-    semantic, samples = [], []
+    semantic, structural, samples = [], [], []
     evaluations = traces = 0
     nontrivial = set()
     shapes = {}
-    stats = {"exact": 0, "deep": 0, "unconverged": 0, "cyclic_dependency": 0, "expected_length": 0}
+    stats = {"exact": 0, "deep": 0, "unconverged": 0, "cyclic_dependency": 0, "expected_length": 0, "tarjan_runs": 0, "tarjan_multi_node_blocks": 0}
+    # structural: the proved model `tarjan` of `scc_decomposition`, run on the iteration orders of `deps.N` / `deps.incoming[v]` observed
+    # in each worker, must emit the real `cfg.dependency_graph().blocks` — same components, same order (the order `agenda` relies on)
+    tops, tidx = [], []
+    for c in cases:
+        for hs in hashseeds:
+            d = (impl_res[hs].get(c["id"]) or {}).get("deps")
+            if d is None:
+                continue
+            if "exc" in d:
+                structural.append({"op": "scc_decomposition", "what": f"dependency_graph().blocks raised {d['exc']}: {d.get('msg')}",
+                                   "case_id": c["id"], "hashseed": hs, "case": c})
+                continue
+            tops.append(common.tarjan_op(d["tarjan"]))
+            tidx.append((c, hs, d))
+    for (c, hs, d), m in zip(tidx, ctx["lean"](tops)):
+        evaluations += 1
+        stats["tarjan_runs"] += 1
+        ok, why = common.tarjan_same(m, d["blocks"])
+        if ok:
+            traces += 1
+            stats["tarjan_multi_node_blocks"] += sum(1 for b in d["blocks"] if len(b) > 1)
+        else:
+            structural.append({"op": "scc_decomposition", "what": why, "orders": d["tarjan"], "model": m.get("blocks"), "impl": d["blocks"],
+                               "case_id": c["id"], "hashseed": hs, "case": c})
     for c, (vals, conv, isdeep) in zip(cases, zn):
         shapes[c["shape"]] = shapes.get(c["shape"], 0) + 1
         stats["deep" if isdeep else "exact"] += 1
@@ -172,7 +205,7 @@ def run(ctx):
         "evaluations": evaluations, "distinct_nontrivial": len(nontrivial),
         "rule": "seeded convergent random grammars (geometric convergence enforced by the generator) x semiring x hash seeds; "
                 "non-trivial = distinct grammars with at least two heads and a non-zero total weight",
-        "samples": samples, "traces": traces, "semantic": semantic, "structural": [],
+        "samples": samples, "traces": traces, "semantic": semantic, "structural": structural,
         "extra": {"shape_histogram": shapes, "hashseeds": hashseeds, "oracle_stats": stats, "cases": len(cases)},
         "assumptions": ["deep (IEEE, n=400) truncations of ZN are compared with rtol 1e-7 where ZN_400 and ZN_200 agree to 1e-12; "
                         "the implementation's own tolerance is 1e-12 per update"],
